@@ -22,9 +22,11 @@ TObs ==
          /\ Region(Ev.tLo, Ev.tmin, Ev.tmax) = Ev.region
          /\ Region(Ev.tHi, Ev.tmin, Ev.tmax) = Ev.region
 
+TRetrace == IsEvent("Retrace") /\ Retrace
+
 TEnd == IsEvent("End") /\ Complete /\ UNCHANGED vars
 
 TInit == TraceInitLib /\ Init
-TNext == TSet \/ TObs \/ TEnd
+TNext == TSet \/ TRetrace \/ TObs \/ TEnd
 TSpec == TInit /\ [][TNext]_<<vars, tid, l>>
 =============================================================================
